@@ -124,6 +124,7 @@ type g struct {
 	// list parser looks for ')' as its end) - a C12 matter, noted in DESIGN.md, not ours.
 	colonOnly bool
 	tinySteps bool
+	usedCaps  map[string]bool
 }
 
 func (x *g) id(prefix string) string {
@@ -291,7 +292,18 @@ func (x *g) item(kind string) {
 		name = x.id("Raw")
 		lines := []string{name + ":", "\tlock", "\tfaceplayer", "# a comment", "\tend", "", ".string \"hi$\""}
 		k := r.Range(1, len(lines))
-		body := strings.Join(lines[:k], "\n")
+		sep := "\n"
+		switch r.Intn(8) {
+		case 0:
+			sep = "\r\n"
+		case 1:
+			sep = "\r"
+		}
+		// (the marker label keeps its own line: the clause-2 oracle delimits blocks by names)
+		body := lines[0]
+		if k > 1 {
+			body += "\n" + strings.Join(lines[1:k], sep)
+		}
 		if r.P(0.3) {
 			body += "\n\n"
 		}
@@ -353,6 +365,9 @@ func (x *g) value() []string {
 	case 1:
 		return []string{fmt.Sprint(r.Intn(12))}
 	case 2:
+		if r.Bool() {
+			return []string{fmt.Sprintf("0x%x", r.Intn(4096))}
+		}
 		return []string{fmt.Sprintf("0x%X", r.Intn(64))}
 	case 3:
 		return []string{"-" + fmt.Sprint(r.Range(1, 5))}
@@ -793,6 +808,10 @@ func (x *g) block(depth int, inLoop, inBreak, braceEnd bool) []string {
 			t = append(t, x.command()...)
 		case k == 5:
 			l := x.id("Lbl")
+			if r.P(0.1) {
+				// an all-caps identifier that spells a keyword is an ordinary identifier
+				l = x.capsName()
+			}
 			t = append(t, l)
 			if r.P(0.3) {
 				t = append(t, "(", []string{"global", "local"}[r.Intn(2)], ")")
@@ -932,9 +951,9 @@ func Join(toks []string, style int, next func() uint64) string {
 				case 3:
 					sb.WriteByte('\t')
 				case 4:
-					sb.WriteString(" # note } ) \"\n")
+					sb.WriteString(" " + model.Comments[next()%uint64(len(model.Comments))] + "\n")
 				case 5:
-					sb.WriteString(" // x { (\n")
+					sb.WriteString(" " + model.Comments[next()%uint64(len(model.Comments))] + "\r\n")
 				default:
 					sb.WriteByte(' ')
 				}
@@ -969,4 +988,21 @@ func (f *FontFile) Variant(r *rng.R) *FontFile {
 		g.Fonts[id] = map[string]interface{}{"widths": widths, "maxLineLength": r.Range(40, 220), "numLines": r.Range(1, 3), "cursorOverlapWidth": r.Range(0, 12)}
 	}
 	return g
+}
+
+var capsPool = []string{"DEFAULT", "CASE", "BREAK", "CONTINUE", "IF", "ELSE", "ELIF", "DO", "WHILE", "SWITCH", "SCRIPT", "TEXT", "RAW", "VAR", "FLAG", "VALUE", "MOVES", "FORMAT", "GLOBAL", "LOCAL", "END", "RETURN", "PORYSWITCH", "CONST", "Default", "Case"}
+
+// capsName returns a not yet used identifier that is an upper-case spelling of a keyword.
+func (x *g) capsName() string {
+	for tries := 0; tries < 8; tries++ {
+		n := capsPool[x.r.Intn(len(capsPool))]
+		if !x.usedCaps[n] {
+			if x.usedCaps == nil {
+				x.usedCaps = map[string]bool{}
+			}
+			x.usedCaps[n] = true
+			return n
+		}
+	}
+	return x.id("Lbl")
 }
